@@ -612,6 +612,12 @@ impl Receiver {
     pub fn verif_credits(&self) -> (Option<(u32, u32)>, u32) {
         self.credits.verif_state()
     }
+
+    /// Verification hook: probe for (used, limit) of the receive buffer, usable during a receive.
+    #[doc(hidden)]
+    pub fn verif_credits_probe(&self) -> impl Fn() -> Option<(u32, u32)> + Send + Sync + 'static {
+        self.credits.verif_probe()
+    }
 }
 
 impl Drop for Receiver {
